@@ -333,6 +333,34 @@ def other_spellings(p):
     return out
 
 
+class CaseBlind(str):
+    """a str subclass with its own equality and hash: a caller's type for ARNs that compares case-insensitively"""
+
+    def __eq__(self, other):
+        return isinstance(other, str) and str.lower(self) == str.lower(other)
+
+    def __ne__(self, other):
+        return not self.__eq__(other)
+
+    def __hash__(self):
+        return hash(str.lower(self))
+
+
+def as_collection(wl, kind):
+    """the whitelist as the collection the caller might hand in: membership (`principal in whitelist`) is the criterion, whatever
+    the collection is (seeded change C16-r7Em2 indexed the members in a hash set by isinstance(.., str), which changes what `in`
+    means for a str subclass with its own equality)"""
+    if kind == "tuple":
+        return tuple(wl)
+    if kind == "set":
+        return set(wl)
+    if kind == "frozenset":
+        return frozenset(wl)
+    if kind == "ci":
+        return [CaseBlind(w) if isinstance(w, str) else w for w in wl]
+    return list(wl)
+
+
 def gen_whitelist(rng, ps):
     n = rng.choice([0, 1, 1, 2, 3, 5])
     wl = []
@@ -585,18 +613,27 @@ class PrincipalList(C16Surface):
 class NonWhitelisted(C16Surface):
     name = "Statement.non_whitelisted_principals(wl)"
     theorem = "C16_whitelist"
+    frozen = frozenset({"wl_kind"})
 
     def impl(self, x):
         def run():
-            st, wl = mk_statement(x["stmt"]), list(x["wl"])
+            st, wl = mk_statement(x["stmt"]), as_collection(x["wl"], x.get("wl_kind"))
             first = st.non_whitelisted_principals(wl)
             again = st.non_whitelisted_principals(wl)      # the SAME whitelist object and statement again
-            if wl != list(x["wl"]):
-                return {"whitelist-argument-modified": wl}
+            if sorted(map(repr, wl)) != sorted(map(repr, as_collection(x["wl"], x.get("wl_kind")))):
+                return {"whitelist-argument-modified": sorted(map(repr, wl))}
             return again if again == first else {"unstable-on-the-same-objects": [first, again]}
         return core.impl_call(run)
 
     def model(self, rn, x):
+        if x.get("wl_kind") == "ci":
+            # membership is whatever `in` says for the collection handed in: here its members compare case-insensitively.  The
+            # model enumerates the principals (empty whitelist: all of them, in order); Python's own `in` is the oracle of membership
+            every = core.model_res(rn.call(1604, [x["stmt"], []]))
+            if every[0] != "OK":
+                return every
+            wl = as_collection(x["wl"], "ci")
+            return ("OK", [p for p in every[1] if not (isinstance(p, str) and p in wl)])
         return core.model_res(rn.call(1604, [x["stmt"], x["wl"]]))
 
 
@@ -998,6 +1035,12 @@ def cases(rng, tier, shard, nshards):
             yield STMT_EFFECT, {"stmt": s}
             yield PLIST, {"stmt": s}
             yield NONWL, {"stmt": s, "wl": gen_whitelist(rng, sp)}
+            if rng.random() < 0.25:
+                kind = rng.choice(["tuple", "set", "frozenset", "ci", "ci"])
+                wl = gen_whitelist(rng, sp)
+                if kind in ("set", "frozenset"):
+                    wl = sorted(set(w for w in wl if isinstance(w, str)))
+                yield NONWL, {"stmt": s, "wl": wl, "wl_kind": kind}
             yield PWITH, {"stmt": s, "pat": gen_pattern(rng, sp)}
             yield RLIST, {"stmt": s}
             yield RWITH, {"stmt": s, "pat": gen_pattern(rng, stmt_resources(s))}
